@@ -54,17 +54,57 @@ def _signature(fn):
     return out
 
 
+_LOG_METHODS = ("debug", "info", "warning", "warn", "error", "critical", "exception", "log")
+_MUTATORS = ("pop", "append", "sort", "clear", "remove", "extend", "insert", "add", "discard", "update", "setdefault", "popitem", "fill", "resize",
+             "put", "reverse", "itemset", "setflags", "partition", "sort_values", "drop", "rename")
+
+
+def _pure(node):
+    """a logging argument that cannot change what the function computes: no walrus, no call of a mutating method"""
+    for n in ast.walk(node):
+        if isinstance(n, (ast.NamedExpr, ast.Await, ast.Yield, ast.YieldFrom)):
+            return False
+        if isinstance(n, ast.Call) and isinstance(n.func, ast.Attribute) and (n.func.attr in _MUTATORS or n.func.attr.startswith("__")):
+            return False
+        if isinstance(n, ast.Call) and isinstance(n.func, ast.Name) and n.func.id in ("setattr", "delattr", "exec", "eval", "next"):
+            return False
+    return True
+
+
+def _log_call(v, helpers):
+    """`log_msg(...)` (a helper lambda of the function), `print(...)`, `logger.<level>(...)`, `traceback.print_exc()`"""
+    if not isinstance(v, ast.Call):
+        return False
+    f = v.func
+    hit = False
+    if isinstance(f, ast.Name) and (f.id in helpers or f.id == "print"):
+        hit = True
+    elif isinstance(f, ast.Attribute) and isinstance(f.value, ast.Name) and f.value.id == "logger" and f.attr in _LOG_METHODS:
+        hit = True
+    elif ast.unparse(f) in ("traceback.print_exc", "traceback.print_stack"):
+        hit = True
+    return hit and all(_pure(a) for a in v.args) and all(_pure(k.value) for k in v.keywords)
+
+
+def _log_expr(v, helpers):
+    """a logging call, or the library's own idiom `<logging call> if <test> else <logging call | None>` written as a statement"""
+    if _log_call(v, helpers):
+        return True
+    if isinstance(v, ast.IfExp) and not any(isinstance(n, ast.Call) for n in ast.walk(v.test)) and _pure(v.test):
+        none = lambda x: isinstance(x, ast.Constant) and x.value is None
+        arms = [v.body, v.orelse]
+        return all(none(x) or _log_expr(x, helpers) for x in arms) and not all(none(x) for x in arms)
+    return False
+
+
 def _is_logging(st, helpers):
     if isinstance(st, ast.Expr) and isinstance(st.value, ast.Constant) and isinstance(st.value.value, str):
         return True  # docstring / bare string
-    if isinstance(st, ast.Assign) and len(st.targets) == 1 and isinstance(st.targets[0], ast.Name) and st.targets[0].id in helpers:
+    if isinstance(st, ast.Assign) and len(st.targets) == 1 and isinstance(st.targets[0], ast.Name) and st.targets[0].id in helpers \
+            and isinstance(st.value, ast.Lambda):
+        return True  # the helper's definition is anchored on its own (helpers:<function>), see _helpers()
+    if isinstance(st, ast.Expr) and _log_expr(st.value, helpers):
         return True
-    if isinstance(st, ast.Expr) and isinstance(st.value, ast.Call):
-        f = st.value.func
-        if isinstance(f, ast.Name) and (f.id in helpers or f.id == "print"):
-            return True
-        if isinstance(f, ast.Attribute) and isinstance(f.value, ast.Name) and f.value.id == "logger":
-            return True
     return False
 
 
@@ -76,65 +116,160 @@ def _prune(block, helpers):
         for fld in ("body", "orelse", "finalbody"):
             if isinstance(getattr(st, fld, None), list):
                 setattr(st, fld, _prune(getattr(st, fld), helpers))
-        if isinstance(st, ast.If) and not st.body and not st.orelse:
+        for h in getattr(st, "handlers", None) or []:
+            h.body = _prune(h.body, helpers) or [ast.Pass()]
+        if isinstance(st, ast.If) and not st.body and not st.orelse and _pure(st.test) and not any(isinstance(n, ast.Call) and isinstance(n.func, ast.Attribute)
+                                                                                                       and n.func.attr not in ("sum", "any", "all", "get", "isEnabledFor") for n in ast.walk(st.test)):
             continue  # an `if` that only logged
-        if isinstance(st, (ast.If, ast.For, ast.While)) and not st.body:
+        if isinstance(st, (ast.If, ast.For, ast.While, ast.With, ast.Try)) and not st.body:
             st.body = [ast.Pass()]
         out.append(st)
     return out
 
 
-def _canon(fn):
-    """canonical copy of a function (see the comment at the top of this section)"""
-    fn = copy.deepcopy(fn)
+def _helper_names(fn):
+    """locals bound to a lambda that only forwards its argument to the logger / print (`log_msg = lambda msg: ...`)"""
     helpers = set()
     for n in ast.walk(fn):
         if isinstance(n, ast.Assign) and len(n.targets) == 1 and isinstance(n.targets[0], ast.Name) and isinstance(n.value, ast.Lambda) \
                 and any(isinstance(x, ast.Name) and x.id in ("logger", "print") for x in ast.walk(n.value)):
             helpers.add(n.targets[0].id)
+    return helpers
+
+
+_MIRROR = {ast.Lt: ast.Gt, ast.Gt: ast.Lt, ast.LtE: ast.GtE, ast.GtE: ast.LtE, ast.Eq: ast.Eq, ast.NotEq: ast.NotEq}
+
+
+class _Normalise(ast.NodeTransformer):
+    """harmless spelling differences: type annotations (H1) and the direction of a comparison with a constant (`0 < x` = `x > 0`)"""
+
+    def visit_AnnAssign(self, n):
+        self.generic_visit(n)
+        if n.value is None:
+            return None  # a bare declaration `x: T`
+        return ast.copy_location(ast.Assign(targets=[n.target], value=n.value), n)
+
+    def visit_arg(self, n):
+        n.annotation = None
+        return n
+
+    def visit_FunctionDef(self, n):
+        self.generic_visit(n)
+        n.returns = None
+        return n
+
+    def visit_Compare(self, n):
+        self.generic_visit(n)
+        if len(n.ops) == 1 and type(n.ops[0]) in _MIRROR and isinstance(n.left, ast.Constant) and not isinstance(n.comparators[0], ast.Constant):
+            return ast.copy_location(ast.Compare(left=n.comparators[0], ops=[_MIRROR[type(n.ops[0])]()], comparators=[n.left]), n)
+        return n
+
+
+def _canon(fn):
+    """canonical copy of a function (see the comment at the top of this section); `._orig` maps canonical names back to the
+    identifiers of the source (for messages), `._helpers` holds the logging-helper lambdas that were taken out of the body"""
+    fn = copy.deepcopy(fn)
+    fn = _Normalise().visit(fn)
+    ast.fix_missing_locations(fn)
+    helpers = _helper_names(fn)
+    helper_defs = [n for n in ast.walk(fn) if isinstance(n, ast.Assign) and len(n.targets) == 1 and isinstance(n.targets[0], ast.Name)
+                   and n.targets[0].id in helpers]
     fn.body = _prune(fn.body, helpers)
     mapping = {p: f"a{k}" for k, p in enumerate(_param_names(fn))}
     binders = []
     for st in fn.body:
         for n in ast.walk(st):
             if isinstance(n, ast.Name) and isinstance(n.ctx, ast.Store):
-                binders.append((n.lineno, n.col_offset, n.id))
+                binders.append((n.lineno, n.col_offset, n.id, n))
             elif isinstance(n, ast.arg):
-                binders.append((n.lineno, n.col_offset, n.arg))
+                binders.append((n.lineno, n.col_offset, n.arg, n))
+            elif isinstance(n, ast.ExceptHandler) and n.name:
+                binders.append((n.lineno, n.col_offset, n.name, n))
     k = 0
-    for _, _, name in sorted(binders):
-        if name not in mapping:
+    discard = {}  # every binding occurrence of `_` is a variable of its own (H2)
+    for _l, _c, name, node in sorted(binders, key=lambda b: b[:3]):
+        if name == "_":
+            discard[id(node)] = f"v{k}"
+            k += 1
+        elif name not in mapping:
             mapping[name] = f"v{k}"
             k += 1
-    for n in ast.walk(fn):
-        if isinstance(n, ast.Name) and n.id in mapping:
-            n.id = mapping[n.id]
-        elif isinstance(n, ast.arg) and n.arg in mapping:
-            n.arg = mapping[n.arg]
+    last_discard = None
+    for n in sorted((x for x in ast.walk(fn) if isinstance(x, (ast.Name, ast.arg, ast.ExceptHandler))), key=lambda x: (getattr(x, "lineno", 0), getattr(x, "col_offset", 0))):
+        if isinstance(n, ast.Name):
+            if n.id == "_":
+                if id(n) in discard:
+                    last_discard = discard[id(n)]
+                n.id = discard.get(id(n)) or last_discard or "_"
+            elif n.id in mapping:
+                n.id = mapping[n.id]
+        elif isinstance(n, ast.arg):
+            n.arg = discard.get(id(n)) or mapping.get(n.arg, n.arg)
+        elif n.name:
+            n.name = discard.get(id(n)) or mapping.get(n.name, n.name)
+    fn._orig = {v: k for k, v in mapping.items()}
+    fn._helpers = []
+    for h in helper_defs:  # `lambda x0: <logger param>.info(x0) if <logger param> else print(x0)`, parameters by position
+        lam = copy.deepcopy(h.value)
+        inner = {a.arg: f"x{j}" for j, a in enumerate(lam.args.posonlyargs + lam.args.args + lam.args.kwonlyargs)}
+        for n in ast.walk(lam):
+            if isinstance(n, ast.Name):
+                n.id = inner.get(n.id) or mapping.get(n.id, n.id)
+            elif isinstance(n, ast.arg):
+                n.arg = inner.get(n.arg, n.arg)
+                n.annotation = None
+        fn._helpers.append(" ".join(ast.unparse(lam).split()))
     return fn
 
 
-def _dump(block, depth=0, out=None):
-    """ordered statement list of a block: 'depth|text' (compound statements contribute their header line)"""
+def _back(fn, text):
+    """canonical names a<i> / v<j> in a message -> `name` of the source"""
+    import re as _re
+    return _re.sub(r"\b([av]\d+)\b", lambda m: fn._orig.get(m.group(1), m.group(1)), text)
+
+
+def _dump2(block, depth=0, out=None):
+    """ordered statement list of a block: ('depth|text', source line); compound statements contribute their header line"""
     out = [] if out is None else out
+    one = lambda x: " ".join(ast.unparse(x).split())
     for st in block:
+        ln = getattr(st, "lineno", 0)
         if isinstance(st, ast.If):
-            out.append(f"{depth}|if {ast.unparse(st.test)}:")
-            _dump(st.body, depth + 1, out)
+            out.append((f"{depth}|if {one(st.test)}:", ln))
+            _dump2(st.body, depth + 1, out)
             if st.orelse:
-                out.append(f"{depth}|else:")
-                _dump(st.orelse, depth + 1, out)
+                out.append((f"{depth}|else:", ln))
+                _dump2(st.orelse, depth + 1, out)
         elif isinstance(st, (ast.For, ast.While)):
-            out.append(f"{depth}|for {ast.unparse(st.target)} in {ast.unparse(st.iter)}:" if isinstance(st, ast.For) else f"{depth}|while {ast.unparse(st.test)}:")
-            _dump(st.body, depth + 1, out)
+            out.append((f"{depth}|for {one(st.target)} in {one(st.iter)}:" if isinstance(st, ast.For) else f"{depth}|while {one(st.test)}:", ln))
+            _dump2(st.body, depth + 1, out)
             if st.orelse:
-                out.append(f"{depth}|else:")
-                _dump(st.orelse, depth + 1, out)
-        elif isinstance(st, (ast.With, ast.Try, ast.FunctionDef, ast.ClassDef, ast.AsyncFunctionDef, ast.Match)):
-            out.append(f"{depth}|{type(st).__name__} " + " ".join(ast.unparse(st).split()))
+                out.append((f"{depth}|else:", ln))
+                _dump2(st.orelse, depth + 1, out)
+        elif isinstance(st, ast.With):
+            out.append((f"{depth}|with " + ", ".join(one(i) for i in st.items) + ":", ln))
+            _dump2(st.body, depth + 1, out)
+        elif isinstance(st, ast.Try):
+            out.append((f"{depth}|try:", ln))
+            _dump2(st.body, depth + 1, out)
+            for h in st.handlers:
+                out.append((f"{depth}|except" + (" " + one(h.type) if h.type is not None else "") + (f" as {h.name}" if h.name else "") + ":", getattr(h, "lineno", ln)))
+                _dump2(h.body, depth + 1, out)
+            if st.orelse:
+                out.append((f"{depth}|else:", ln))
+                _dump2(st.orelse, depth + 1, out)
+            if st.finalbody:
+                out.append((f"{depth}|finally:", ln))
+                _dump2(st.finalbody, depth + 1, out)
+        elif isinstance(st, (ast.FunctionDef, ast.ClassDef, ast.AsyncFunctionDef, ast.Match)):
+            out.append((f"{depth}|{type(st).__name__} " + one(st), ln))
         else:
-            out.append(f"{depth}|" + " ".join(ast.unparse(st).split()))
+            out.append((f"{depth}|" + one(st), ln))
     return out
+
+
+def _dump(block):
+    return [t for t, _ in _dump2(block)]
 
 
 class _Flow:
@@ -326,9 +461,17 @@ class _RoleNames(ast.NodeTransformer):
 
 
 def _site(src, key):
+    """_site_raw with the canonical names of a failure message translated back to the identifiers of the source (H2)"""
+    fn = _canon(src.find(REL, _FUNCS[key]))
+    try:
+        return _site_raw(src, key, fn)
+    except core.AnchorMissing as e:
+        raise core.AnchorMissing(_back(fn, str(e)))
+
+
+def _site_raw(src, key, fn):
     """admissibility site of one candidate kernel -> dict(dist2, proj, projCmp, lat2, coneCmp, coneRhs, stored, ball, mult, radius, chain, store)"""
     fname = _FUNCS[key]
-    fn = _canon(src.find(REL, fname))
     R = {k: f"a{v}" for k, v in _ROLES[key].items()}
     flow = _Flow(fn)
     flow.root = fn.body
@@ -482,24 +625,122 @@ def _sig(src, key):
         for k, a in enumerate(fn.args.posonlyargs + fn.args.args):
             a.arg = f"a{k}"
     sig = _signature(fn)
-    if key == "top":  # only the parameters the statement depends on
-        sig = [x for x in sig if x.split("=")[0] in ("max_thickness", "max_angle", "direction", "use_gpu")]
     return deco, sig
 
 
+class _Resolver:
+    """measure_membrane_thickness: every local name -> the expression over the function's PARAMETERS that defines it (a local must be
+    bound exactly once, by a plain or tuple assignment; `(call)[k]` for the k-th name of a tuple target)"""
+
+    def __init__(self, fn):
+        self.fn, self.params = fn, set(_param_names(fn))
+        self.binds, self.other = {}, set()
+        for st in ast.walk(fn):
+            if isinstance(st, ast.Assign):
+                for t in st.targets:
+                    self._target(t, st.value, None)
+            elif isinstance(st, (ast.AugAssign, ast.AnnAssign)):
+                if isinstance(st, ast.AnnAssign) and st.value is not None and isinstance(st.target, ast.Name):
+                    self.binds.setdefault(st.target.id, []).append((st.value, None))
+                else:
+                    self.other.update(n.id for n in ast.walk(st.target) if isinstance(n, ast.Name))
+            elif isinstance(st, (ast.For, ast.comprehension)):
+                self.other.update(n.id for n in ast.walk(st.target) if isinstance(n, ast.Name))
+            elif isinstance(st, ast.NamedExpr):
+                self.other.add(st.target.id)
+            elif isinstance(st, (ast.With, ast.AsyncWith)):
+                for i in st.items:
+                    if i.optional_vars is not None:
+                        self.other.update(n.id for n in ast.walk(i.optional_vars) if isinstance(n, ast.Name))
+            elif isinstance(st, ast.Call):  # in-place edits of a local: `np.multiply(x, k, out=x)`, `x.sort()` ...
+                for k in st.keywords:
+                    if k.arg == "out":
+                        self.other.update(n.id for n in ast.walk(k.value) if isinstance(n, ast.Name))
+                if isinstance(st.func, ast.Attribute) and st.func.attr in _MUTATORS and isinstance(st.func.value, ast.Name):
+                    self.other.add(st.func.value.id)
+            elif isinstance(st, ast.Subscript) and isinstance(st.ctx, ast.Store) and isinstance(st.value, ast.Name):
+                self.binds.setdefault("[]" + st.value.id, []).append((st, None))
+
+    def _target(self, t, value, pos):
+        if isinstance(t, ast.Name):
+            self.binds.setdefault(t.id, []).append((value, pos))
+        elif isinstance(t, (ast.Tuple, ast.List)) and pos is None:
+            for k, e in enumerate(t.elts):
+                self._target(e, value, k)
+        else:
+            self.other.update(n.id for n in ast.walk(t) if isinstance(n, ast.Name) and isinstance(n.ctx, ast.Store))
+
+    def resolve(self, node, depth=0):
+        if depth > 12:
+            raise core.AnchorMissing("definition chain too deep")
+        this = self
+
+        class Sub(ast.NodeTransformer):
+            def visit_Name(self, n):
+                if not isinstance(n.ctx, ast.Load) or n.id not in this.binds:
+                    return n
+                if n.id in this.params:
+                    return n  # a parameter with a defaulting re-binding (`if logger is None: logger = ...`): shown as the parameter
+                bs = this.binds[n.id]
+                if n.id in this.other or len(bs) != 1:
+                    raise core.AnchorMissing(f"`{n.id}` is not bound by exactly one assignment ({len(bs)} assignments" + (", also modified in place" if n.id in this.other else "") + ")")
+                value, pos = bs[0]
+                v = this.resolve(copy.deepcopy(value), depth + 1)
+                return v if pos is None else ast.Subscript(value=v, slice=ast.Constant(pos), ctx=ast.Load())
+        return Sub().visit(node)
+
+    def text(self, node):
+        return " ".join(ast.unparse(ast.fix_missing_locations(self.resolve(copy.deepcopy(node)))).split())
+
+
 def _dispatch(src):
-    """measure_membrane_thickness: which of ITS parameters it hands to which keyword of the two implementations (locals shown as <local>)"""
-    fn = src.find(REL, _FUNCS["top"])
-    params = set(_param_names(fn))
+    """measure_membrane_thickness: the two implementation calls with every argument written over the function's own parameters
+    (locals replaced by their definitions: which CSV columns are the points / normals / masks, where the voxel size comes from)"""
+    fn = copy.deepcopy(src.find(REL, _FUNCS["top"]))
+    fn = _Normalise().visit(fn)
+    rs = _Resolver(fn)
     out = []
     for name in (_FUNCS["gpu"], _FUNCS["cpu"]):
         calls = [n for n in ast.walk(fn) if isinstance(n, ast.Call) and isinstance(n.func, ast.Name) and n.func.id == name]
         if len(calls) != 1:
-            raise core.AnchorMissing(f"measure_membrane_thickness: exactly one call of {name} expected")
+            raise core.AnchorMissing(f"measure_membrane_thickness: exactly one call of {name} expected, found {len(calls)}")
         c = calls[0]
-        show = lambda v: v.id if isinstance(v, ast.Name) and v.id in params else ("<local>" if isinstance(v, ast.Name) else ast.unparse(v))
-        out.append(f"{name}: {len(c.args)} positional; " + ", ".join(f"{k.arg}={show(k.value)}" for k in c.keywords))
+        if any(isinstance(a, ast.Starred) for a in c.args) or any(k.arg is None for k in c.keywords):
+            raise core.AnchorMissing(f"measure_membrane_thickness: the call of {name} uses * / ** arguments")
+        out.append(f"{name}(" + ", ".join([rs.text(a) for a in c.args] + [f"{k.arg}={rs.text(k.value)}" for k in c.keywords]) + ")")
     return out
+
+
+def _columns(src):
+    """measure_membrane_thickness: what is written into the result columns — `df['thickness'] = <k-th result of the implementation call>`"""
+    fn = copy.deepcopy(src.find(REL, _FUNCS["top"]))
+    fn = _Normalise().visit(fn)
+    rs = _Resolver(fn)
+    impl = (_FUNCS["gpu"], _FUNCS["cpu"])
+    out = []
+    for st in ast.walk(fn):
+        if isinstance(st, ast.Assign) and len(st.targets) == 1 and isinstance(st.targets[0], ast.Subscript) and isinstance(st.targets[0].slice, ast.Constant) \
+                and isinstance(st.targets[0].slice.value, str) and isinstance(st.targets[0].value, ast.Name):
+            col, v = st.targets[0].slice.value, st.value
+            if not isinstance(v, ast.Name):
+                out.append(f"{col} = {' '.join(ast.unparse(v).split())}")
+                continue
+            bs = rs.binds.get(v.id, [])
+            srcs = sorted({(val.func.id if isinstance(val, ast.Call) and isinstance(val.func, ast.Name) else "?", pos) for val, pos in bs}, key=str)
+            if v.id in rs.other or v.id in rs.params or not bs or any(f not in impl for f, _ in srcs) or len({pos for _, pos in srcs}) != 1 or len(bs) != 2:
+                raise core.AnchorMissing(f"measure_membrane_thickness: column {col!r} is assigned `{v.id}`, which is not simply the k-th result of the two implementation calls")
+            out.append(f"{col} = result[{srcs[0][1]}] of " + " / ".join(f for f, _ in srcs))
+    if not out:
+        raise core.AnchorMissing("measure_membrane_thickness: no result column is assigned")
+    return sorted(out)
+
+
+def _helpers(src, fname):
+    return _canon(src.find(REL, fname))._helpers
+
+
+def _body_of(src, fname):
+    return _dump(_canon(src.find(REL, fname)).body)
 
 
 def _caps(src):
@@ -550,14 +791,72 @@ def _lean_list(xs, indent="  "):
     return "[\n" + ",\n".join(indent + core.lean_str(x) for x in xs) + "]"
 
 
+_NM = dict(cuda="CudaKernel", gpu2cpu="Gpu2Cpu", gpu="MeasureGpu", numba="NumbaKernel", cpu="MeasureCpu", cpu2cpu="Cpu2Cpu", top="Top", readseg="ReadSeg")
+_FUNCS_ALL = dict(_FUNCS, readseg="read_segmentation")
+
+
+def _documented():
+    """the literals of Props/C20.lean, for console diagnostics ONLY (the Lean kernel decides; this names the function and the source line)"""
+    import re as _re
+    try:
+        txt = open(os.path.join(core.LEAN, "CryoCat", "Props", "C20.lean")).read()
+    except Exception:
+        return {}
+    out = {}
+    for m in _re.finditer(r"Gen\.C20\.(\w+)\s*=\s*\[", txt):
+        k, items = m.end(), []
+        while True:
+            mm = _re.compile(r'\s*"((?:[^"\\]|\\.)*)"\s*(,|\])').match(txt, k)
+            if not mm:
+                break
+            items.append(mm.group(1).replace('\\"', '"').replace("\\\\", "\\"))
+            k = mm.end()
+            if mm.group(2) == "]":
+                out[m.group(1)] = items
+                break
+    return out
+
+
+def _diagnose(src, bodies):
+    """first-hand console message for a changed canonical body: which function, which statement, which source line"""
+    import sys
+    doc = _documented()
+    for k, dumped in bodies.items():
+        want = doc.get("body" + _NM[k])
+        got = [t for t, _ in dumped]
+        if want is None or want == got or not got:
+            continue
+        j = next((i for i, (x, y) in enumerate(zip(want, got)) if x != y), min(len(want), len(got)))
+        try:
+            fn = _canon(src.find(REL, _FUNCS_ALL[k]))
+        except Exception:
+            fn = None
+        here = _back(fn, got[j]) if (fn is not None and j < len(got)) else "<end of function>"
+        line = dumped[j][1] if j < len(got) else "?"
+        print(f"[c20] translator: the body of {_FUNCS_ALL[k]} is not the documented one (theorem about Gen.C20.body{_NM[k]}): statement {j} is "
+              f"`{here.split('|', 1)[-1]}` ({REL}:{line}), documented `{want[j] if j < len(want) else '<end of function>'}` (canonical names)", file=sys.stderr, flush=True)
+
+
 def translate(src):
     sites = {k: src.anchor(f"site:{_FUNCS[k]}", lambda k=k: _site(src, k)) for k in ("cpu", "numba", "cuda")}
     sites = {k: (v if isinstance(v, dict) else None) for k, v in sites.items()}
     gsc = src.anchor("scalars:measure_thickness_gpu", lambda: _gpu_scalars(src))
     gsc = gsc if isinstance(gsc, dict) else {}
-    bodies = {k: src.anchor(f"body:{_FUNCS[k]}", lambda k=k: _body(src, k)) or [] for k in ("cuda", "gpu2cpu", "gpu", "numba", "cpu", "cpu2cpu")}
+    keys = ("cuda", "gpu2cpu", "gpu", "numba", "cpu", "cpu2cpu", "top", "readseg")
+    dumps = {}
+    for k in keys:
+        d = src.anchor(f"body:{_FUNCS_ALL[k]}", lambda k=k: _dump2(_canon(src.find(REL, _FUNCS_ALL[k])).body))
+        dumps[k] = d if isinstance(d, list) else []
+        src.anchors[-1]["value"] = [t for t, _ in dumps[k]] if src.anchors[-1]["ok"] else None
+    bodies = {k: [t for t, _ in v] for k, v in dumps.items()}
+    try:
+        _diagnose(src, dumps)
+    except Exception:
+        pass
+    helpers = {k: src.anchor(f"helpers:{_FUNCS_ALL[k]}", lambda k=k: _helpers(src, _FUNCS_ALL[k])) or [] for k in ("cpu", "gpu", "readseg")}
     sigs = {k: src.anchor(f"signature:{_FUNCS[k]}", lambda k=k: _sig(src, k)) or ([], []) for k in ("cuda", "gpu2cpu", "gpu", "numba", "cpu", "cpu2cpu", "top")}
     disp = src.anchor("dispatch:measure_membrane_thickness", lambda: _dispatch(src)) or []
+    cols = src.anchor("columns:measure_membrane_thickness", lambda: _columns(src)) or []
     caps = src.anchor("max_matches_per_point", lambda: _caps(src)) or [CAP, CAP]  # missing -> the documented value (anchorsOk is false then)
     if sites["cpu"] is not None and (sites["cpu"].get("mult") is None or sites["cpu"].get("radius") is None):
         src.anchors.append(dict(name="scalars:measure_thickness_cpu", ok=False, value=None, detail="radius / multiplier not used by the admissibility test"))
@@ -579,30 +878,44 @@ def translate(src):
          f"def radiusGpu : String := {core.lean_str(gsc.get('radius') or 'missing')}"]
     L += ["/-- max_matches_per_point: default of measure_thickness_cpu / constant of measure_thickness_gpu -/",
           f"def capDefault : Nat := {caps[0]}", f"def capGpu : Nat := {caps[1]}"]
-    nm = dict(cuda="CudaKernel", gpu2cpu="Gpu2Cpu", gpu="MeasureGpu", numba="NumbaKernel", cpu="MeasureCpu", cpu2cpu="Cpu2Cpu", top="Top")
     for k in ("cuda", "gpu2cpu", "gpu", "numba", "cpu", "cpu2cpu", "top"):
-        L.append(f"/-- {_FUNCS[k]}: decorators, parameters with defaults -/")
-        L.append(f"def deco{nm[k]} : List String := {_lean_list(sigs[k][0])}")
-        L.append(f"def sig{nm[k]} : List String := {_lean_list(sigs[k][1])}")
-    for k in ("cuda", "gpu2cpu", "gpu", "numba", "cpu", "cpu2cpu"):
-        L.append(f"/-- {_FUNCS[k]}: canonical body (parameters a<i> by position, locals v<j> by first binding, logging removed) -/")
-        L.append(f"def body{nm[k]} : List String := {_lean_list(bodies[k])}")
-    L.append("/-- measure_membrane_thickness: the two implementation calls -/")
+        L.append(f"/-- {_FUNCS[k]}: decorators, parameters with defaults (annotations ignored) -/")
+        L.append(f"def deco{_NM[k]} : List String := {_lean_list(sigs[k][0])}")
+        L.append(f"def sig{_NM[k]} : List String := {_lean_list(sigs[k][1])}")
+    for k in keys:
+        L.append(f"/-- {_FUNCS_ALL[k]}: canonical body (parameters a<i> by position, locals v<j> by first binding, annotations / docstrings / logging removed) -/")
+        L.append(f"def body{_NM[k]} : List String := {_lean_list(bodies[k])}")
+    for k in ("cpu", "gpu", "readseg"):
+        L.append(f"/-- {_FUNCS_ALL[k]}: the logging helper(s) every pruned `log_msg(...)` statement calls (argument x0, parameters a<i>) -/")
+        L.append(f"def helpers{_NM[k]} : List String := {_lean_list(helpers[k])}")
+    L.append("/-- measure_membrane_thickness: the two implementation calls, arguments written over the function's own parameters -/")
     L.append(f"def dispatch : List String := {_lean_list(disp)}")
+    L.append("/-- measure_membrane_thickness: the result columns -/")
+    L.append(f"def columns : List String := {_lean_list(cols)}")
     L.append("end CryoCat.Gen.C20")
     return "\n".join(L) + "\n"
 
 
 # ================================================================================ constants
-COUNT = {"quick": 200, "thorough": 2000, "search": 600}
+COUNT = {"quick": 200, "thorough": 2000, "search": 150}  # search cases are small (6..40 points); 150 keep an anchor-break run inside the quick budget
 PARALLEL = False  # numba's thread pool does not survive vcheck's fork pool: forked workers deadlock once the parent has run a prange kernel
 os.environ.setdefault("NUMBA_NUM_THREADS", "2")  # 16 forked workers x prange threads
 CAP = 25
-REL_MARGIN = 1e-6      # distance of every decision from the ball / cone boundary (relative)
-TIE_MARGIN = 1e-9      # relative gap between candidate distances (float families)
-TH_TOL = 1e-6          # thickness is float32(dist) * float32(voxel): relative tolerance
-GPU_TH_TOL = 3e-6      # the GPU path computes the distance itself in float32
-ANGLE_EPS = 1e-4       # degrees, for the independent evaluation of the cone clause
+REL_MARGIN = 1e-6      # distance of every decision from the ball / cone boundary (relative). Worst legitimate rounding: the inputs are exact
+#                        floats, so dx = pt - ps has ONE rounding (1.1e-16 relative, no cancellation error); d^2 and d: <= 5 roundings (6e-16);
+#                        the lateral offset dx - proj*n cancels down to >= d*tan(1 degree) = 0.017 d at the cone boundary with an absolute error
+#                        <= 4e-16 d, i.e. <= 2.4e-14 relative, lat2 <= 5e-14, m*proj^2 <= 1e-15 -> every quantity AT a boundary is accurate to
+#                        <= 1e-13, seven orders below the margin (a projection that rounds across 0 is rejected on both sides: proj <= 0 or
+#                        lat2 ~ d^2 > m*proj^2). The entry point's float32 voxel size / radius moves the ball boundary by <= 1.8e-7: inside too.
+TIE_MARGIN = 1e-9      # relative gap between candidate distances (float families): sqrt of a 3-term sum, error <= 3 ulp = 3.3e-16
+TH_TOL = 1e-6          # thickness is float32(dist) * float32(voxel): three float32 roundings of 2^-24 = 6e-8 each -> <= 1.8e-7 relative
+GPU_TH_TOL = 3e-6      # the GPU path computes the distance itself in float32 from float32 coordinates: 3 subtractions, 3 squares, 2 additions,
+#                        1 sqrt, the store and the product with the voxel size -> <= 11 * 6e-8 = 6.6e-7 relative on the float32-rounded input
+ANGLE_EPS = 1e-4       # degrees, for the independent evaluation of the cone clause: an accepted pair is >= 1e-6 (relative, in tan^2) inside the cone,
+#                        i.e. >= 0.5e-6 * tan(t)/(1+tan(t)^2) rad >= 5e-7 degrees inside at t = 1 degree; atan2 of float64 cross/dot products of
+#                        unit-length normals (|n| = 1 +- 2e-16) is accurate to ~1e-13 degrees. ANGLE_EPS only has to exceed that error: it loosens
+#                        the independent check (a pair up to 1e-4 degrees outside would pass it) and cannot raise a false alarm; the exact cone
+#                        decision is the verified checker's (Lean, same Float expressions as the code).
 
 RULE = ("point sets of 20..600 points (search tier: 6..40): family 'sheets' = two sheets (flat, tilted or curved; separation h, "
         "jitter), unit normals with angular noise and ~5% flipped, targets aimed at sources at off-axis angles spread around "
@@ -611,15 +924,21 @@ RULE = ("point sets of 20..600 points (search tier: 6..40): family 'sheets' = tw
         "(exact float arithmetic: exact distance ties decided by index order, targets exactly on the search radius); voxel size "
         "0.3..3, max_thickness 0.75..1.8 x separation, max_angle 1..30 degrees, both directions; every decision kept a relative "
         "margin 1e-6 away from the ball/cone boundary and (float families) candidate distances 1e-9 apart; < 25 candidates per "
-        "source (corpus: exactly 24 and exactly 25). Call options: in ~35% of the cases the geometry is built so that max_thickness_nm / "
-        "max_angle_degrees / direction ARE the documented defaults (8.0, 5.0 CPU / 3.0 GPU, '1to2') and the keyword is left out; "
-        "max_matches_per_point passed in half of the cases. Each case: measure_thickness_cpu; numba find_matches_parallel + "
+        "source (corpus: exactly 24, exactly 25, and 40 = outside the quantifier, judged per pair only). Call options: in ~35% of the cases the geometry is built so that max_thickness_nm / "
+        "max_angle_degrees / direction ARE the documented defaults (8.0, 5.0 CPU / 3.0 GPU and entry point, '1to2') and the keyword is left out; "
+        "max_matches_per_point passed in half of the cases; logger left out (library prints, stdout captured) in ~12%, num_threads=1|2 passed in ~8%; "
+        "lattice points with integral coordinates handed over as an int64 array in ~30% of the grid cases; the voxel size as python int / numpy float32 "
+        "where that is the same number. Each case: measure_thickness_cpu; numba find_matches_parallel + "
         "process_matches_gpu2cpu; re-runs on a rigidly moved copy, a voxel-rescaled copy (maximum scaled along) and the surface-swapped "
         "copy; 30%: the same data at another voxel size with the SAME max_thickness_nm (judged as an input of its own); 30%: cross-call "
         "stream - the same caller-owned arrays, some labels cleared IN PLACE, go into a second and a third call (judged like the "
-        "first; all caller-owned arrays compared before/after every call); 45% of the cases with <= 200 points whose decisions "
-        "have float32 margins: the whole GPU path (measure_thickness_gpu + CUDA kernel + process_matches_gpu2cpu) executed by "
-        "numba's CUDA simulator in worker processes. non-trivial = at least 2 admissible pairs, at "
+        "first; all caller-owned arrays compared before/after every call); ~22%: END TO END through the entry point measure_membrane_thickness "
+        "on a synthetic segmentation MRC (voxel size in the header) + vertex CSV (x/y/z_voxel, x/y/z_physical, normal_*, surface1/2 as "
+        "True/False or 1/0, integral columns written as integers in half of them), use_gpu=False or left at its default True (no CUDA device: CPU "
+        "branch), output CSV read back and judged by the verified checker at the voxel size read from the header; 45% of the cases whose decisions "
+        "have float32 margins: the whole GPU path (measure_thickness_gpu + CUDA kernel + process_matches_gpu2cpu, and for half of the end-to-end cases "
+        "the entry point with use_gpu=True) executed by numba's CUDA simulator in worker processes, including one lattice case of 300..600 points per "
+        "quick run (every 100th case in thorough) so that a launch of 2-3 blocks of 256 threads is executed. non-trivial = at least 2 admissible pairs, at "
         "least one admissible pair refused because its source or target was taken, and at least one in-range forward target "
         "between the cone and 45 degrees; distinct = distinct case content")
 ASSUMPTIONS = [
@@ -627,15 +946,22 @@ ASSUMPTIONS = [
     "rounding cannot flip them; family 'grid' is exact",
     "scipy.spatial.KDTree.query_ball_point(x, r) returns exactly the points with distance <= r (probed each run against brute force)",
     "libm tan of Lean's Float.tan and numpy's np.tan agree to a few ulp (probed each run)",
-    "thickness_results is float32: float32(dist) * float32(voxel) is compared with dist*voxel at relative tolerance 1e-6",
+    "thickness_results is float32: float32(dist) * float32(voxel) is compared with dist*voxel at relative tolerance 1e-6 (three float32 roundings "
+    "of 2^-24 = 6e-8 each: the distance, the voxel size, the product; 1.8e-7 < 1e-6)",
     "numba prange scheduling does not influence per-source candidate lists (each source writes its own row)",
     "the CUDA kernel and measure_thickness_gpu are executed by numba's CUDA SIMULATOR (NUMBA_ENABLE_CUDASIM=1: the kernel body runs as Python, one "
     "thread per grid index), never on a GPU: thread scheduling, device memory and the device compiler's float32/float64 promotion are not "
     "observed. The GPU path rounds points and normals to float32; it is judged on the float32-rounded input (model at Float on the rounded "
     "coordinates), only for cases whose decisions are 1e-4 (relative) away from every boundary and whose candidate distances are equal or "
-    "1e-5 apart, thickness tolerance 3e-6",
-    "the 25-candidate cap counts admissible matches in KD-tree order (CPU) / scan order (kernels), not nearest-first: with more than 25 admissible "
-    "targets per source the result depends on that order; this is outside the quantifier and not modelled (corpus documents 24 and 25)",
+    "1e-5 apart, thickness tolerance 3e-6 (distance computed in float32: ~5 roundings of 6e-8). The quantifier names the CPU implementation and the "
+    "numba kernel, so every disagreement of the GPU path is reported as correspondence (corr), never as a violated clause",
+    "the entry point reads the voxel size from the MRC header (float32 Angstrom / 10, kept in float32): it is judged at that voxel size (relative "
+    "distance < 1.2e-7 from the case's, decisions of that variant are kept 1e-6 away from every boundary as well); pandas' CSV float parser may be 1 ulp "
+    "off for long decimals (inside the 1e-6 margins; lattice coordinates are short dyadic decimals and parse exactly)",
+    "the 25-candidate cap: the kernels keep the first 25 admissible targets in scan order (modelled: candsCapped; capped = uncapped is proved for <= 25 "
+    "per source), the CPU path the first 25 in KD-tree order (not modelled). With more than 25 admissible targets for a source the input is outside the "
+    "quantifier: per-pair clauses and the kernels' buffers are still judged, the greedy clause, the invariances and the CPU-vs-model comparison are not "
+    "(Props/C20.cap_counterexample shows the greedy clause fails above the cap)",
 ]
 TRUSTED = ["harness geometry used only to *generate* margins (props/c20.py _analyse) and for the independent angle/thickness evaluation in judge()",
            "numba's CUDA simulator as the execution vehicle of the GPU path"]
@@ -730,26 +1056,41 @@ def corpus():
             c.setdefault("family", "corpus"); c.setdefault("shape", os.path.basename(p)[:-5])
             c.setdefault("motion", None); c.setdefault("k", None)
             c.setdefault("gpu", len(c["lab"]) <= GPU_MAX_POINTS)
+            # every hand-written case also goes END TO END through the entry point (CPU branch here, GPU branch under the simulator) where the
+            # voxel size survives the MRC header (float32) unchanged, so that its boundary constructions stay what they are
+            if "top" not in c and _veff(c["voxel"]) == c["voxel"]:
+                c["top"] = dict(use_gpu=False, ints=True, flags="01", nolog=False, threads=None, gpu=True, origin=[0.0, 0.0, 0.0])
             c["meta"] = _meta(c)
             out.append(c)
     return out
 
 
+def _veff(voxel):
+    """the voxel size measure_membrane_thickness works with: the MRC header stores float32 Angstrom, read_segmentation divides by 10"""
+    return float(np.float32(np.float32(voxel * 10.0) / np.float32(10.0)))
+
+
 def _variants(case):
     """the inputs derived from a case that are judged against the model: the case itself, the same data at another voxel size with
-    the SAME physical maximum thickness (`kv`)"""
+    the SAME physical maximum thickness (`kv`), and the same data at the voxel size the top-level entry point reads back from the
+    MRC header (float32)"""
     out = [case]
     if case.get("kv"):
         out.append(dict(case, voxel=case["voxel"] * case["kv"]))
+    if case.get("top") and _veff(case["voxel"]) != case["voxel"]:
+        out.append(dict(case, voxel=_veff(case["voxel"])))
     return out
 
 
 def _clean(case, rng, exact=False):
-    """unlabel targets until every decision (of the case and of its `kv` variant) is a margin away from a boundary, candidate
-    distances are apart (float families) and every source has < CAP candidates; then fix the cross-call edit and record the meta counts"""
+    """unlabel targets until every decision (of the case and of its variants) is a margin away from a boundary, candidate
+    distances are apart (float families) and every source has < CAP candidates; then fix the cross-call edit and record the meta counts.
+    Always terminates with a clean case: if 16 rounds do not converge the variants are given up, and as a last resort every target
+    label is removed (no candidates at all: trivially clean)."""
     lab = case["lab"]
     tbit = 1 if case["dir"] == "2to1" else 2
-    for _ in range(16):
+
+    def round_():
         drop = set()
         for var in _variants(case):
             A = _analyse(var)
@@ -777,14 +1118,24 @@ def _clean(case, rng, exact=False):
                     rng.shuffle(bs)
                     for b in bs[: int(cnt[a]) - (CAP - 6)]:
                         drop.add(int(ti[b]))
-        if not drop:
-            break
-        for t in drop:
-            lab[t] &= ~tbit
-    else:
-        if case.get("kv"):  # could not be cleaned together with its variant: keep the plain case
-            case["kv"] = None
-            return _clean(case, rng, exact)
+        return drop
+
+    def converge():
+        for _ in range(16):
+            drop = round_()
+            if not drop:
+                return True
+            for t in drop:
+                lab[t] &= ~tbit
+        return False
+
+    if not converge():
+        case["kv"] = None
+        case["top"] = None
+        if not converge():
+            for t in range(len(lab)):
+                lab[t] &= ~tbit
+            case["unclean_fallback"] = True
     # cross-call edit: some labelled points lose their label in place before the second call (a subset of the pairs: still clean)
     if case.get("edit") is not None:
         cand = [i for i, l in enumerate(lab) if l]
@@ -826,6 +1177,18 @@ def _pre_options(rng, exact):
     o["gpu"] = rng.random() < 0.45
     o["kv"] = (rng.choice([2.0, 0.5]) if exact else rng.choice([1.25, 1.5, 0.8])) if rng.random() < 0.3 else None
     o["edit"] = {} if rng.random() < 0.3 else None
+    # logger / num_threads: documented defaults None (logger omitted = the library prints; stdout is captured), num_threads=1 or 2 given
+    o["nolog"] = rng.random() < 0.12
+    o["threads"] = rng.choice([1, 1, 2]) if rng.random() < 0.08 else None
+    # H3: what a caller naturally hands over — integer voxel coordinates as an int64 array, the voxel size as int / numpy float32
+    o["intpts"] = exact and rng.random() < 0.3
+    o["voxel_type"] = rng.choice(["float", "float", "float", "int", "float32"])
+    # the top-level entry point measure_membrane_thickness on a synthetic MRC + CSV (end to end)
+    o["top"] = None
+    if rng.random() < 0.22:
+        o["top"] = dict(use_gpu=rng.choice(["omit", False, False]), ints=rng.random() < 0.5, flags=rng.choice(["bool", "01"]),
+                        nolog=rng.random() < 0.1, threads=rng.choice([None, None, 1]), gpu=rng.random() < 0.5,
+                        origin=rng.choice([[0.0, 0.0, 0.0], [12.5, -3.0, 40.0]]))
     return o
 
 
@@ -833,7 +1196,8 @@ def _options(case, o):
     if o["maxnm8"]:  # max_thickness_nm = 8.0: the voxel size that makes it so (same radius in voxels)
         r = case["maxnm"] / case["voxel"]
         case["voxel"], case["maxnm"] = 8.0 / r, 8.0
-    case.update(omit=o["omit"], pass_cap=o["pass_cap"], gpu=o["gpu"] and len(case["lab"]) <= GPU_MAX_POINTS, kv=o["kv"], edit=o["edit"])
+    case.update(omit=o["omit"], pass_cap=o["pass_cap"], gpu=o["gpu"] and len(case["lab"]) <= GPU_MAX_POINTS, kv=o["kv"], edit=o["edit"],
+                nolog=o["nolog"], threads=o["threads"], intpts=o["intpts"], voxel_type=o["voxel_type"], top=o["top"])
 
 
 def _gen_sheets(rng, nmin, nmax):
@@ -938,9 +1302,11 @@ def _signed_perms():
     return _SIGNED_PERMS
 
 
-def _gen_grid(rng, nmin, nmax):
+def _gen_grid(rng, nmin, nmax, big=False):
     pre = _pre_options(rng, exact=True)
-    n = rng.randint(nmin, min(nmax, 300))
+    if big:  # the multi-block case: more points than one 256-thread block, always through the CUDA simulator
+        pre["gpu"] = True
+    n = rng.randint(nmin, nmax if big else min(nmax, 300))
     hz = rng.choice([2, 3, 4, 5, 6])
     side = max(3, int(math.sqrt(n)) + rng.randint(0, 3))
     cells = [(i, j) for i in range(side) for j in range(side)]
@@ -984,8 +1350,23 @@ def _gen_grid(rng, nmin, nmax):
     return _clean(case, rng, exact=True)
 
 
+def _gen_multiblock(rng):
+    """one lattice case of 300..600 points (exact in float32, so always eligible for the GPU path unless a lattice distance falls
+    within 1e-4 of the radius): the kernel launch needs two or three 256-thread blocks"""
+    c = None
+    for _ in range(6):
+        c = _gen_grid(rng, 300, 600, big=True)
+        if _gpu_eligible(c):
+            break
+    c["shape"] = "lattice-multiblock"
+    return c
+
+
 def generate(rng, tier, n):
     for t in range(n):
+        if (tier == "quick" and t == 3) or (tier == "thorough" and t % 100 == 3):
+            yield _gen_multiblock(rng)
+            continue
         if tier == "search":
             lo, hi = 6, 40
         elif tier == "quick":
@@ -998,8 +1379,23 @@ def generate(rng, tier, n):
             yield _gen_sheets(rng, lo, hi)
 
 
+SHRINK_BUDGET_S = 25.0  # wall-clock budget of the whole shrinking phase of one run (the framework's budget counts evaluations, and one
+_SHRINK_T0 = [None]     # evaluation of a 500-point case with its GPU-simulator job costs ~1 s): keeps an exit-1 run inside the quick budget
+
+
 def shrink(case):
+    import time
+    if _SHRINK_T0[0] is None:
+        _SHRINK_T0[0] = time.time()
+    if time.time() - _SHRINK_T0[0] > SHRINK_BUDGET_S:
+        return
     n = len(case["lab"])
+    # first the call options: every one dropped makes the later evaluations cheaper
+    for fld, simple in (("top", None), ("edit", None), ("kv", None), ("motion", None), ("k", None), ("gpu", False), ("omit", []), ("pass_cap", False),
+                        ("nolog", False), ("threads", None), ("intpts", False), ("voxel_type", "float")):
+        if case.get(fld) and case.get(fld) != simple:
+            c = dict(case); c[fld] = simple
+            yield c
 
     def keep(idx):
         c = dict(case)
@@ -1016,25 +1412,22 @@ def shrink(case):
             pass
         return c
     if n > 2:
-        for parts in (2, 4, 8):
+        for parts in ((2, 4) if n > 64 else (2, 4, 8)):
             size = max(1, n // parts)
             for s in range(0, n, size):
                 idx = [i for i in range(n) if not (s <= i < s + size)]
                 if 1 <= len(idx) < n:
                     yield keep(idx)
-        if n <= 40:
+        if n <= 24:
             for i in range(n):
                 yield keep([j for j in range(n) if j != i])
-    for fld, simple in (("motion", None), ("k", None), ("kv", None), ("edit", None), ("gpu", False), ("omit", []), ("pass_cap", False)):
-        if case.get(fld):
-            c = dict(case); c[fld] = simple
-            yield c
 
 
 def sample_view(case):
     return dict(family=case["family"], shape=case.get("shape"), n_points=len(case["lab"]), labels={str(k): case["lab"].count(k) for k in (0, 1, 2, 3)},
                 voxel=case["voxel"], maxnm=case["maxnm"], deg=case["deg"], dir=case["dir"], meta=case.get("meta"),
-                options=dict(omit=case.get("omit"), pass_cap=case.get("pass_cap"), gpu=case.get("gpu"), kv=case.get("kv"), k=case.get("k"), edit=case.get("edit")),
+                options=dict(omit=case.get("omit"), pass_cap=case.get("pass_cap"), gpu=case.get("gpu"), kv=case.get("kv"), k=case.get("k"), edit=case.get("edit"),
+                             nolog=case.get("nolog"), threads=case.get("threads"), intpts=case.get("intpts"), voxel_type=case.get("voxel_type"), top=case.get("top")),
                 first_points=[dict(p=case["pts"][i], n=case["nrm"][i], lab=case["lab"][i]) for i in range(min(3, len(case["lab"])))])
 
 
@@ -1045,8 +1438,10 @@ _LOG.propagate = False
 _LOG.setLevel(logging.CRITICAL)
 
 # documented signature defaults (Props/C20.defaults_documented); a case may leave an argument out only where its value IS the default
-DOC_DEFAULTS = {"cpu": dict(maxnm=8.0, deg=5.0, dir="1to2", cap=25), "gpu": dict(maxnm=8.0, deg=3.0, dir="1to2")}
+DOC_DEFAULTS = {"cpu": dict(maxnm=8.0, deg=5.0, dir="1to2", cap=25), "gpu": dict(maxnm=8.0, deg=3.0, dir="1to2"),
+                "top": dict(maxnm=8.0, deg=3.0, dir="1to2")}
 _KW = dict(maxnm="max_thickness_nm", deg="max_angle_degrees", dir="direction", cap="max_matches_per_point")
+_KW_TOP = dict(maxnm="max_thickness", deg="max_angle", dir="direction")
 
 
 def _kwargs(path, vals, omit):
@@ -1056,7 +1451,7 @@ def _kwargs(path, vals, omit):
         if k in omit and DOC_DEFAULTS[path].get(k) == v:
             left_out.append(k)
         else:
-            kw[_KW[k]] = v
+            kw[(_KW_TOP if path == "top" else _KW)[k]] = v
     return kw, left_out
 
 
@@ -1094,19 +1489,148 @@ def _same(snap, *arrs):
     return all(a.dtype == b.dtype and a.shape == b.shape and np.array_equal(a, b) for a, b in zip(snap, arrs))
 
 
-def _cpu(memthick, P, N, m1, m2, voxel, vals, omit=()):
+def _quiet_call(f, nolog, *a, **kw):
+    """call f; with `nolog` the `logger` keyword is left out (documented default None: the library prints) and stdout is captured"""
+    if not nolog:
+        return f(*a, logger=_LOG, **kw), None
+    import io, contextlib
+    buf = io.StringIO()
+    with contextlib.redirect_stdout(buf):
+        ret = f(*a, **kw)
+    return ret, len(buf.getvalue())
+
+
+def _voxel_arg(voxel, how):
+    """the voxel size as a caller may hold it: python float, python int (integral sizes), numpy float32 (what an MRC header gives)"""
+    if how == "int" and float(voxel).is_integer():
+        return int(voxel)
+    if how == "float32" and float(np.float32(voxel)) == voxel:
+        return np.float32(voxel)
+    return voxel
+
+
+def _cpu(memthick, P, N, m1, m2, voxel, vals, omit=(), nolog=False, threads=None):
     """one call of measure_thickness_cpu on caller-owned arrays; the arrays are compared before / after (G2)"""
     kw, left = _kwargs("cpu", vals, omit)
+    if threads is not None:
+        kw["num_threads"] = threads
     before = _snap(P, N, m1, m2)
-    o = _pairs(memthick.measure_thickness_cpu(P, N, m1, m2, voxel, logger=_LOG, **kw))
+    try:
+        ret, printed = _quiet_call(memthick.measure_thickness_cpu, nolog, P, N, m1, m2, voxel, **kw)
+    finally:
+        if threads is not None:
+            import numba
+            numba.set_num_threads(int(os.environ.get("NUMBA_NUM_THREADS", "2")))
+    o = _pairs(ret)
     o["inputs_unchanged"] = _same(before, P, N, m1, m2)
-    o["omitted"] = left
+    o["omitted"] = left + (["logger"] if nolog else []) + ([] if threads is not None else ["num_threads"])
+    if printed is not None:
+        o["printed_chars"] = printed
     return o
 
 
+# ---- the top-level entry point measure_membrane_thickness, end to end on a synthetic segmentation MRC + vertex CSV
+def _num(x, as_int):
+    return str(int(x)) if as_int else repr(float(x))
+
+
+def _top(memthick, case, pts, nrm, use_gpu):
+    """write <tmp>/seg.mrc (voxel size in the header, Angstrom) and <tmp>/verts.csv (the columns process_membrane_segmentation writes:
+    x/y/z_voxel, x/y/z_physical = voxel * size + origin, normal_x/y/z, surface1, surface2), call measure_membrane_thickness, read the
+    output CSV back. `pts`/`nrm`: the coordinates to write (the float32-rounded ones for the GPU run)."""
+    import tempfile, shutil, csv, mrcfile, io, contextlib
+    T = case["top"]
+    tmp = tempfile.mkdtemp(prefix="c20top_")
+    try:
+        seg, inp = os.path.join(tmp, "seg.mrc"), os.path.join(tmp, "verts.csv")
+        with mrcfile.new(seg, overwrite=True) as m:
+            m.set_data(np.zeros((2, 3, 4), dtype=np.int8))
+            m.voxel_size = case["voxel"] * 10.0
+            m.header.origin.x, m.header.origin.y, m.header.origin.z = [10.0 * x for x in T["origin"]]
+        with mrcfile.open(seg, permissive=True) as m:
+            vx = m.voxel_size.x
+        veff = float(np.float32(np.float32(vx) / np.float32(10.0)))
+        P = np.asarray(pts, dtype=np.float64).reshape(-1, 3)
+        N = np.asarray(nrm, dtype=np.float64).reshape(-1, 3)
+        m1, m2 = _masks(case)
+        phys = P * veff + np.asarray(T["origin"], dtype=float)
+        cols = [P[:, 0], P[:, 1], P[:, 2], phys[:, 0], phys[:, 1], phys[:, 2], N[:, 0], N[:, 1], N[:, 2]]
+        as_int = [bool(T["ints"]) and bool(np.all(c == np.round(c))) and k not in (3, 4, 5) for k, c in enumerate(cols)]
+        flag = (lambda b: "True" if b else "False") if T["flags"] == "bool" else (lambda b: "1" if b else "0")
+        with open(inp, "w") as f:
+            f.write("x_voxel,y_voxel,z_voxel,x_physical,y_physical,z_physical,normal_x,normal_y,normal_z,surface1,surface2\n")
+            for i in range(len(P)):
+                f.write(",".join([_num(c[i], as_int[k]) for k, c in enumerate(cols)] + [flag(m1[i]), flag(m2[i])]) + "\n")
+        kw, left = _kwargs("top", dict(maxnm=case["maxnm"], deg=case["deg"], dir=case["dir"]), case.get("omit") or ())
+        if use_gpu != "omit":
+            kw["use_gpu"] = use_gpu
+        else:
+            left.append("use_gpu")
+        if T.get("threads") is not None:
+            kw["num_cpu_threads"] = T["threads"]
+        out_dir = os.path.join(tmp, "out")
+        err = io.StringIO()
+        try:
+            if T.get("nolog"):  # logger omitted: setup_logger(output_dir) writes a log file and to stderr
+                with contextlib.redirect_stderr(err), contextlib.redirect_stdout(err):
+                    ret = memthick.measure_membrane_thickness(seg, inp, output_dir=out_dir, **kw)
+                left.append("logger")
+            else:
+                ret = memthick.measure_membrane_thickness(seg, inp, output_dir=out_dir, logger=_LOG, **kw)
+        finally:
+            lg = logging.getLogger("MembraneThickness")
+            for h in list(lg.handlers):
+                try:
+                    h.close()
+                except Exception:
+                    pass
+            lg.handlers = []
+            if T.get("threads") is not None:
+                import numba
+                numba.set_num_threads(int(os.environ.get("NUMBA_NUM_THREADS", "2")))
+        o = dict(veff=veff, omitted=left, int_columns=int(sum(as_int)), n_in=len(P))
+        if not (isinstance(ret, tuple) and len(ret) == 2 and all(isinstance(x, str) for x in ret)):
+            o["shape_error"] = f"returned {ret!r:.200}"
+            return o
+        o["returned"] = [os.path.relpath(x, tmp) for x in ret]
+        if not os.path.exists(ret[0]):
+            o["shape_error"] = f"the returned output CSV {o['returned'][0]} does not exist"
+            return o
+        with open(ret[0], newline="") as f:
+            rows = list(csv.DictReader(f))
+        need = ("thickness", "valid_measurement", "paired_point_idx")
+        o["n"] = len(rows)
+        if rows and any(k not in rows[0] for k in need):
+            o["shape_error"] = f"output CSV lacks one of the columns {need}: {sorted(rows[0])}"
+            return o
+        pairs, th, bad, clean = [], [], [], True
+        for i, r in enumerate(rows):
+            v = r["valid_measurement"].strip()
+            if v not in ("True", "False", "1", "0"):
+                bad.append((i, "valid_measurement", v))
+                continue
+            try:
+                t, x = int(r["paired_point_idx"]), float(r["thickness"])
+            except ValueError:
+                bad.append((i, "paired_point_idx/thickness", r["paired_point_idx"], r["thickness"]))
+                continue
+            if v in ("True", "1"):
+                pairs.append([i, t]); th.append(x)
+            elif t != 0 or x != 0:
+                clean = False
+        if bad:
+            o["untyped"] = bad[:10]
+            return o
+        o.update(pairs=pairs, th=th, clean=clean)
+        return o
+    finally:
+        shutil.rmtree(tmp, ignore_errors=True)
+
+
 # ---- the GPU path, executed under numba's CUDA simulator in worker processes (NUMBA_ENABLE_CUDASIM=1 must be set before numba is imported)
-GPU_MAX_POINTS = 200
+GPU_MAX_POINTS = 600  # two or three 256-thread blocks: the launch configuration is executed, not only anchored
 GPU_WORKERS = 4
+GPU_TIMEOUT_S = 600  # a hung worker must not hang the check: infrastructure failure (exit 2), never a finding
 
 
 def _gpu_worker():
@@ -1135,9 +1659,10 @@ def _gpu_worker():
             try:
                 kw, left = _kwargs("gpu", q["vals"], q.get("omit", ()))
                 before = _snap(P, N, m1, m2)
-                o = _pairs(memthick.measure_thickness_gpu(P, N, m1, m2, q["voxel"], logger=_LOG, **kw))
+                ret, printed = _quiet_call(memthick.measure_thickness_gpu, bool(q.get("nolog")), P, N, m1, m2, _voxel_arg(q["voxel"], q.get("voxel_type")), **kw)
+                o = _pairs(ret)
                 o["inputs_unchanged"] = _same(before, P, N, m1, m2)
-                o["omitted"] = left
+                o["omitted"] = left + (["logger"] if q.get("nolog") else [])
             finally:
                 memthick.process_matches_gpu2cpu = real
             if spy and spy["md"].dtype.kind == "f" and spy["mi"].dtype.kind in "iu" and spy["mc"].dtype.kind in "iu":
@@ -1147,6 +1672,16 @@ def _gpu_worker():
                 o["cap"] = cap
                 o["counts_over_cap"] = int(sum(1 for c in cnt if c > cap or c < 0))
                 o["md_dtype"] = str(spy["md"].dtype)
+            if q.get("top"):  # the top-level entry point with use_gpu=True: under the simulator CUDA "is available", the GPU branch runs
+                try:
+                    o["top"] = _top(memthick, q["top"], q["pts"], q["nrm"], True)
+                except Exception as e:
+                    where = ""
+                    for fr in reversed(traceback.extract_tb(e.__traceback__)):
+                        if "/cryocat/" in fr.filename:
+                            where = f"{os.path.basename(fr.filename)}:{fr.lineno}"
+                            break
+                    o["top"] = {"error": f"{type(e).__name__}: {str(e)[:300]}", "where": where}
         except Exception as e:
             where = ""
             for fr in reversed(traceback.extract_tb(e.__traceback__)):
@@ -1170,6 +1705,10 @@ class _GpuSim:
         code = f"import sys; sys.path.insert(0, {os.path.dirname(os.path.dirname(os.path.abspath(__file__)))!r}); from props import c20; c20._gpu_worker()"
         p = subprocess.Popen([sys.executable, "-W", "ignore", "-c", code], stdin=subprocess.PIPE, stdout=subprocess.PIPE, stderr=subprocess.DEVNULL, text=True, env=env)
         self.procs.append(p)
+        import select
+        if not select.select([p.stdout], [], [], GPU_TIMEOUT_S)[0]:
+            p.kill()
+            raise RuntimeError("CUDA simulator worker did not start in time")
         hello = p.stdout.readline()
         if not hello or not json.loads(hello).get("ready"):
             raise RuntimeError("CUDA simulator worker did not start")
@@ -1187,6 +1726,15 @@ class _GpuSim:
         try:
             p.stdin.write(payload + "\n")
             p.stdin.flush()
+            import select
+            # one request -> exactly one line: nothing is buffered on our side when we start waiting, so select() on the pipe is sound
+            ready, _, _ = select.select([p.stdout], [], [], GPU_TIMEOUT_S)
+            if not ready:
+                try:
+                    p.kill()
+                except Exception:
+                    pass
+                return {"infrastructure": f"CUDA simulator worker gave no answer within {GPU_TIMEOUT_S} s (killed)"}
             line = p.stdout.readline()
             if not line:
                 raise RuntimeError("worker died")
@@ -1213,7 +1761,13 @@ class _GpuSim:
 
     def collect(self, token):
         f = self.jobs.pop(token, None)
-        return None if f is None else f.result()
+        res = None if f is None else f.result()
+        if isinstance(res, dict) and "infrastructure" in res:
+            import sys
+            print(f"[c20] infrastructure failure: {res['infrastructure']}", file=sys.stderr, flush=True)
+            self.close()
+            raise SystemExit(2)  # not an Exception: vcheck neither turns it into a finding nor into a VIOLATION line
+        return res
 
     def close(self):
         for p in self.procs:
@@ -1283,18 +1837,24 @@ def run_impl(case):
     from cryocat import memthick
     P = np.ascontiguousarray(np.asarray(case["pts"], dtype=np.float64).reshape(-1, 3))
     N = np.ascontiguousarray(np.asarray(case["nrm"], dtype=np.float64).reshape(-1, 3))
+    if case.get("intpts") and P.size and np.all(P == np.round(P)):  # integer voxel coordinates handed over as an int64 array (H3)
+        P = np.ascontiguousarray(P.astype(np.int64))
     m1, m2 = _masks(case)
-    voxel, maxnm, deg, direction = case["voxel"], case["maxnm"], case["deg"], case["dir"]
+    maxnm, deg, direction = case["maxnm"], case["deg"], case["dir"]
+    voxel = _voxel_arg(case["voxel"], case.get("voxel_type"))
     omit = case.get("omit") or ()
+    nolog, threads = bool(case.get("nolog")), case.get("threads")
     vals = dict(maxnm=maxnm, deg=deg, dir=direction)
     if case.get("pass_cap"):
         vals["cap"] = CAP
-    obs = {}
+    obs = {"arg_types": f"points {P.dtype}, voxel {type(voxel).__name__}"}
+    T = case.get("top")
     # the GPU path under the CUDA simulator runs in a worker process while this process does the rest
-    if case.get("gpu") and _gpu_eligible(case):
-        obs["gpu"] = {"pending": _GPUSIM.submit(dict(pts=case["pts"], nrm=case["nrm"], m1=m1.tolist(), m2=m2.tolist(), voxel=voxel,
-                                                      vals=dict(maxnm=maxnm, deg=deg, dir=direction), omit=list(omit)))}
-    obs["cpu"] = _cpu(memthick, P, N, m1, m2, voxel, vals, omit)
+    if case.get("gpu") and _gpu_eligible(case) and (not T or _gpu_eligible(dict(case, voxel=_veff(case["voxel"])))):
+        top_q = dict(lab=case["lab"], voxel=case["voxel"], maxnm=maxnm, deg=deg, dir=direction, omit=list(omit), top=T) if (T and T.get("gpu")) else None
+        obs["gpu"] = {"pending": _GPUSIM.submit(dict(pts=case["pts"], nrm=case["nrm"], m1=m1.tolist(), m2=m2.tolist(), voxel=case["voxel"], voxel_type=case.get("voxel_type"),
+                                                      vals=dict(maxnm=maxnm, deg=deg, dir=direction), omit=list(omit), nolog=nolog, top=top_q))}
+    obs["cpu"] = _cpu(memthick, P, N, m1, m2, voxel, vals, omit, nolog, threads)
     # numba candidate kernel with the documented multiplier, then the GPU-path assignment loop
     sm, tm = (m2, m1) if direction == "2to1" else (m1, m2)
     n = len(P)
@@ -1303,13 +1863,13 @@ def run_impl(case):
     mc = np.zeros(n, dtype=np.int64)
     ti = np.where(tm)[0].astype(np.int64)
     before = _snap(P, N, sm, tm, ti)
-    memthick.find_matches_parallel(P, N, sm, tm, ti, maxnm / voxel, math.tan(math.radians(deg)) ** 2, md, mi, mc)
+    memthick.find_matches_parallel(P, N, sm, tm, ti, maxnm / case["voxel"], math.tan(math.radians(deg)) ** 2, md, mi, mc)
     kernel_inputs_unchanged = _same(before, P, N, sm, tm, ti)
-    cands = [[int(s), int(mi[s, j]), float(md[s, j])] for s in range(n) for j in range(int(mc[s]))]
+    cands = [[int(s), int(mi[s, j]), float(md[s, j])] for s in range(n) for j in range(max(0, min(int(mc[s]), CAP)))]
     mdf, mif = md.ravel(), mi.ravel()
     before = _snap(mdf, mif, mc)
-    ret = memthick.process_matches_gpu2cpu(mdf, mif, mc, n, CAP, voxel)
-    obs["kernel"] = dict(cands=cands, counts_on_non_sources=int(mc[~sm].sum()), **_pairs(ret))
+    ret = memthick.process_matches_gpu2cpu(mdf, mif, mc, n, CAP, case["voxel"])
+    obs["kernel"] = dict(cands=cands, counts_on_non_sources=int(mc[~sm].sum()), counts_over_cap=int(((mc > CAP) | (mc < 0)).sum()), **_pairs(ret))
     obs["kernel"]["inputs_unchanged"] = bool(kernel_inputs_unchanged and _same(before, mdf, mif, mc))
     # the statement's invariances, observed on the real code
     mo = case.get("motion")
@@ -1319,12 +1879,24 @@ def run_impl(case):
         obs["moved"] = _cpu(memthick, np.ascontiguousarray(P @ R.T + b), np.ascontiguousarray(N @ R.T), m1, m2, voxel, vals, omit)
     if case.get("k"):
         k = case["k"]
-        obs["rescaled"] = _cpu(memthick, P, N, m1, m2, voxel * k, dict(vals, maxnm=maxnm * k), omit)
+        obs["rescaled"] = _cpu(memthick, P, N, m1, m2, case["voxel"] * k, dict(vals, maxnm=maxnm * k), omit)
         # same physical maximum, other voxel size: another input of the quantifier (judged against the model and the checker)
     if case.get("kv"):
-        obs["revoxel"] = _cpu(memthick, P, N, m1, m2, voxel * case["kv"], vals, omit)
+        obs["revoxel"] = _cpu(memthick, P, N, m1, m2, case["voxel"] * case["kv"], vals, omit)
     other = "1to2" if direction == "2to1" else "2to1"
     obs["swapped"] = _cpu(memthick, P, N, m2, m1, voxel, dict(vals, dir=other), omit)
+    # the top-level entry point, end to end (CPU branch: use_gpu=False, or use_gpu left at its default True with no CUDA device)
+    if T:
+        try:
+            obs["top"] = _top(memthick, case, case["pts"], case["nrm"], T["use_gpu"])
+        except Exception as e:
+            import traceback
+            where = ""
+            for fr in reversed(traceback.extract_tb(e.__traceback__)):
+                if "/cryocat/" in fr.filename:
+                    where = f"{os.path.basename(fr.filename)}:{fr.lineno}"
+                    break
+            obs["top"] = {"error": f"{type(e).__name__}: {str(e)[:300]}", "where": where}
     # cross-call state (G2): the SAME caller-owned arrays, legitimately edited in place, go into a second call
     if case.get("edit"):
         for i in case["edit"]["unlabel"]:
@@ -1353,36 +1925,55 @@ def _plan(case, obs):
     g = obs.get("gpu")
     if isinstance(g, dict) and "error" not in g and "pairs" in g:
         plan.append("gpu")
+    t = obs.get("top")
+    if isinstance(t, dict) and "pairs" in t:
+        plan.append("top")
+    gt = g.get("top") if isinstance(g, dict) else None
+    if isinstance(gt, dict) and "pairs" in gt:
+        plan.append("gputop")
     return plan
+
+
+def _in_range(pairs, n):
+    """pairs the driver can take (natural numbers); anything else is reported by _direct as not source-to-target"""
+    return [[s, t] for s, t in pairs if isinstance(s, int) and isinstance(t, int) and 0 <= s < 10 ** 9 and 0 <= t < 10 ** 9]
 
 
 def requests(case, obs):
     _resolve_gpu(obs)
     m1, m2 = _masks(case)
     base = dict(op="all", pts=_flat(case), m1=[int(x) for x in m1], m2=[int(x) for x in m2], voxel=f2b(case["voxel"]), maxnm=f2b(case["maxnm"]),
-                deg=f2b(case["deg"]), rev=1 if case["dir"] == "2to1" else 0)
+                deg=f2b(case["deg"]), rev=1 if case["dir"] == "2to1" else 0, cap=CAP)
+    n = len(case["lab"])
     out = []
     for tag in _plan(case, obs):
         q = dict(base)
         if tag == "main":
             if "error" not in obs:
                 if "pairs" in obs["cpu"]:
-                    q["out"] = obs["cpu"]["pairs"]
+                    q["out"] = _in_range(obs["cpu"]["pairs"], n)
                 if "pairs" in obs["kernel"]:
-                    q["out_kernel"] = obs["kernel"]["pairs"]
+                    q["out_kernel"] = _in_range(obs["kernel"]["pairs"], n)
         elif tag == "revoxel":
             q["voxel"] = f2b(case["voxel"] * case["kv"])
             if "pairs" in obs["revoxel"]:
-                q["out"] = obs["revoxel"]["pairs"]
+                q["out"] = _in_range(obs["revoxel"]["pairs"], n)
         elif tag == "second":
             lab = _apply_edit(case, case["lab"])
             q["m1"] = [int(l & 1 != 0) for l in lab]
             q["m2"] = [int(l & 2 != 0) for l in lab]
             if "pairs" in obs["second"]:
-                q["out"] = obs["second"]["pairs"]
+                q["out"] = _in_range(obs["second"]["pairs"], n)
         elif tag == "gpu":
             q["pts"] = _flat(_case32(case))
-            q["out_kernel"] = obs["gpu"]["pairs"]
+            q["out_kernel"] = _in_range(obs["gpu"]["pairs"], n)
+        elif tag == "top":  # the entry point's CPU branch at the voxel size it read from the MRC header
+            q["voxel"] = f2b(obs["top"]["veff"])
+            q["out"] = _in_range(obs["top"]["pairs"], n)
+        elif tag == "gputop":
+            q["pts"] = _flat(_case32(case))
+            q["voxel"] = f2b(obs["gpu"]["top"]["veff"])
+            q["out_kernel"] = _in_range(obs["gpu"]["top"]["pairs"], n)
         out.append(q)
     return out
 
@@ -1393,8 +1984,9 @@ def _angle_deg(v, n):
     return math.degrees(math.atan2(float(np.linalg.norm(c)), float(np.dot(v, n))))
 
 
-def _direct(case, o, who, th_tol=TH_TOL):
-    """independent evaluation of the per-pair clauses of the statement on an implementation output"""
+def _direct(case, o, who, th_tol=TH_TOL, kind="spec"):
+    """independent evaluation of the per-pair clauses of the statement on an implementation output (`kind`: "spec" for the paths the
+    quantifier names — CPU implementation, numba kernel, the entry point's CPU branch; "corr" for the GPU path under the simulator)"""
     out = []
     P = np.asarray(case["pts"], dtype=float).reshape(-1, 3)
     N = np.asarray(case["nrm"], dtype=float).reshape(-1, 3)
@@ -1402,23 +1994,23 @@ def _direct(case, o, who, th_tol=TH_TOL):
     seen_s, seen_t = set(), set()
     for (s, t), th in zip(o["pairs"], o["th"]):
         if not (0 <= s < len(P) and 0 <= t < len(P)) or not sm[s] or not tm[t]:
-            out.append(dict(kind="spec", clause=f"{who}pair-not-source-to-target", detail=f"pair ({s},{t}) labels {case['lab'][s] if s < len(P) else '?'}/{case['lab'][t] if 0 <= t < len(P) else '?'} direction {case['dir']}"))
+            out.append(dict(kind=kind, clause=f"{who}pair-not-source-to-target", detail=f"pair ({s},{t}) labels {case['lab'][s] if s < len(P) else '?'}/{case['lab'][t] if 0 <= t < len(P) else '?'} direction {case['dir']}"))
             continue
         if s in seen_s or t in seen_t:
-            out.append(dict(kind="spec", clause=f"{who}not-one-to-one", detail=f"pair ({s},{t}) reuses a point"))
+            out.append(dict(kind=kind, clause=f"{who}not-one-to-one", detail=f"pair ({s},{t}) reuses a point"))
         seen_s.add(s); seen_t.add(t)
         v = P[t] - P[s]
         d = float(np.linalg.norm(v))
         nn = N[s] / np.linalg.norm(N[s])
         ang = _angle_deg(v, nn)
         if float(np.dot(v, nn)) <= 0:
-            out.append(dict(kind="spec", clause=f"{who}pair-not-forward", detail=f"pair ({s},{t}): target lies {ang:.3f} degrees off the source normal (behind the source)"))
+            out.append(dict(kind=kind, clause=f"{who}pair-not-forward", detail=f"pair ({s},{t}): target lies {ang:.3f} degrees off the source normal (behind the source)"))
         elif ang > case["deg"] + ANGLE_EPS:
-            out.append(dict(kind="spec", clause=f"{who}pair-outside-cone", detail=f"pair ({s},{t}): {ang:.4f} degrees off the normal, max_angle {case['deg']}"))
+            out.append(dict(kind=kind, clause=f"{who}pair-outside-cone", detail=f"pair ({s},{t}): {ang:.4f} degrees off the normal, max_angle {case['deg']}"))
         if d * case["voxel"] > case["maxnm"] * (1 + 1e-9):
-            out.append(dict(kind="spec", clause=f"{who}pair-beyond-max-thickness", detail=f"pair ({s},{t}): {d * case['voxel']:.6g} > {case['maxnm']:.6g}"))
+            out.append(dict(kind=kind, clause=f"{who}pair-beyond-max-thickness", detail=f"pair ({s},{t}): {d * case['voxel']:.6g} > {case['maxnm']:.6g}"))
         if not isinstance(th, (int, float)) or isinstance(th, bool) or not (abs(th - d * case["voxel"]) <= th_tol * max(1.0, abs(d * case["voxel"]))):
-            out.append(dict(kind="spec", clause=f"{who}thickness-is-not-distance-times-voxel", detail=f"pair ({s},{t}): reported {th!r}, distance*voxel {d * case['voxel']!r}"))
+            out.append(dict(kind=kind, clause=f"{who}thickness-is-not-distance-times-voxel", detail=f"pair ({s},{t}): reported {th!r}, distance*voxel {d * case['voxel']!r}"))
     return out
 
 
@@ -1426,26 +2018,28 @@ def _same_pairs(a, b):
     return sorted(map(tuple, a["pairs"])) == sorted(map(tuple, b["pairs"]))
 
 
-def _usable(who, o, n, out):
+def _usable(who, o, n, out, kind="spec"):
     """G3: what came back must be three equally long 1-d arrays: numeric thickness, boolean mask, integer partner index"""
     if "shape_error" in o:
-        out.append(dict(kind="spec", clause=f"{who}output-is-not-a-triple-of-arrays", detail=o["shape_error"]))
+        out.append(dict(kind=kind, clause=f"{who}output-is-not-a-triple-of-arrays", detail=o["shape_error"]))
         return False
     if "untyped" in o:
-        out.append(dict(kind="spec", clause=f"{who}output-not-numeric", detail=f"thickness dtype {o['dtype']}, mask dtype {o['valid_dtype']}, partner dtype {o['pp_dtype']}, "
+        out.append(dict(kind=kind, clause=f"{who}output-not-numeric", detail=f"thickness dtype {o['dtype']}, mask dtype {o['valid_dtype']}, partner dtype {o['pp_dtype']}, "
                         f"shapes {o['shapes']}: {str(o['untyped'])[:300]}"))
         return False
-    if not o.get("inputs_unchanged", True):
-        out.append(dict(kind="spec", clause=f"{who}modifies-caller-input", detail="points / normals / masks (or the candidate buffers) differ after the call"))
+    if not o.get("inputs_unchanged", True):  # the statement is silent about the caller's arrays: a disagreement with the model (pure function), never spec
+        out.append(dict(kind="corr", clause=f"{who}modifies-caller-input", detail="points / normals / masks (or the candidate buffers) differ after the call"))
     if o["dtype"] != "float32" or o["pp_dtype"] != "int32" or o["n"] != n or not o["clean"]:
         out.append(dict(kind="corr", clause=f"{who}output-shape", detail=f"clean={o['clean']} dtype={o['dtype']} partner dtype={o['pp_dtype']} n={o['n']} (documented: float32 / int32 / one row per point, zero where not valid)"))
     return True
 
 
-def _checker(who, c, alt, out):
-    """findings of the Lean verified checker (Props/C20.check_sound) on a real output.
+def _checker(who, c, alt, out, kind="spec", capped=False):
+    """findings of the Lean verified checker (Props/C20.check_sound / check_complete) on a real output.
     A target exactly on the search radius may be kept (closed KD-tree ball) or dropped (`dist < r` in the kernels): the statement
-    ("does not exceed") does not decide it, so a clause counts as violated only if the output fails under both readings."""
+    ("does not exceed") does not decide it, so a clause counts as violated only if the output fails under both readings.
+    `capped`: some source has more than 25 admissible targets — outside the quantifier ("fewer than 25 candidates per source"); the
+    25-slot buffers then drop candidates by scan / tree order and the greedy clause is not claimed (the per-pair clauses still are)."""
     if c is None or alt is None:
         out.append(dict(kind="corr", clause=who + "checker-did-not-run", detail=""))
         return
@@ -1466,11 +2060,11 @@ def _checker(who, c, alt, out):
         else:
             cl = "pair-outside-cone"
         detail = {k: (b2f(v) if k in ("dist", "proj", "lat2", "rhs") else v) for k, v in dg.items()}
-        out.append(dict(kind="spec", clause=who + cl, detail=f"verified checker: reported pair is not admissible: {detail}"))
+        out.append(dict(kind=kind, clause=who + cl, detail=f"verified checker: reported pair is not admissible: {detail}"))
     if not c["one_to_one"]:
-        out.append(dict(kind="spec", clause=who + "not-one-to-one", detail="verified checker: a source or a target occurs in two pairs"))
-    if not c["greedy"]:
-        out.append(dict(kind="spec", clause=who + "not-greedy-by-distance", detail="verified checker: an admissible pair shares neither point with a reported pair that is not farther "
+        out.append(dict(kind=kind, clause=who + "not-one-to-one", detail="verified checker: a source or a target occurs in two pairs"))
+    if not c["greedy"] and not capped:
+        out.append(dict(kind=kind, clause=who + "not-greedy-by-distance", detail="verified checker: an admissible pair shares neither point with a reported pair that is not farther "
                         "(an admissible pair of unmatched points is left over, or a matched source/target had a closer admissible partner)"))
 
 
@@ -1499,11 +2093,35 @@ def _vs_cands(who, cands, mcands, out, tol):
             out.append(dict(kind="corr", clause=f"{who}-distances-vs-model", detail=f"relative deviation {dev:.3g}"))
 
 
+GPU_NOTE = " [GPU path executed by numba's CUDA simulator: the quantifier names the CPU implementation and the numba kernel, so this is reported as a disagreement with the model, not as a violated clause]"
+
+
+def _usable_top(who, t, n, out, kind):
+    """the entry point's result: (output csv, statistics file); the csv has one row per input row with thickness / valid_measurement / paired_point_idx"""
+    if "error" in t:
+        if t.get("where"):
+            out.append(dict(kind=kind, clause=who + "raises", detail=t["error"] + " @" + t["where"]))
+        else:
+            out.append(dict(kind="corr", clause="harness-or-library-raised", detail=who + " " + t["error"]))
+        return False
+    if "shape_error" in t:
+        out.append(dict(kind=kind, clause=who + "output-is-not-the-documented-csv", detail=t["shape_error"]))
+        return False
+    if "untyped" in t:
+        out.append(dict(kind=kind, clause=who + "output-not-numeric", detail=str(t["untyped"])[:300]))
+        return False
+    if t["n"] != n or not t["clean"]:
+        out.append(dict(kind="corr", clause=who + "output-shape", detail=f"rows {t['n']} (input {n}), zero where not valid: {t['clean']}"))
+    return t["n"] == n
+
+
 def judge(case, obs, resps):
     out = []
     if "error" in obs:
         if not obs.get("where"):  # G4: no frame of the traceback lies inside cryocat
             return [dict(kind="corr", clause="harness-or-library-raised", detail=obs["error"])]
+        # every generated input meets the documented preconditions (arrays of matching length, boolean masks, positive voxel size / maximum,
+        # angle in 1..30 degrees, a documented direction): an exception raised inside cryocat is a violated statement whatever its type / message
         return [dict(kind="spec", clause="raises", detail=obs["error"] + " @" + obs.get("where", ""))]
     _resolve_gpu(obs)
     plan = _plan(case, obs)
@@ -1516,16 +2134,23 @@ def judge(case, obs, resps):
     R = RS["main"]
     n = len(case["lab"])
     cpu, ker = obs["cpu"], obs["kernel"]
+    # the multiplier expressions extracted from the source (Gen.C20.multCpu / multGpu), evaluated by the driver, are the model's multiplier
+    for k in ("mult_src_cpu", "mult_src_gpu"):
+        if R.get(k) != R.get("mult"):
+            out.append(dict(kind="corr", clause="source-multiplier-expression-differs-from-model", detail=f"{k} evaluates to {b2f(R[k]) if isinstance(R.get(k), int) else R.get(k)!r}, "
+                            f"the model uses tan(radians({case['deg']}))**2 = {b2f(R['mult'])!r}"))
+    # outside the quantifier: a source with more than 25 admissible targets (the generator never produces one; corpus / shrunk cases may)
+    capped = lambda r: max(r.get("max_per_source", 0), r.get("max_per_source_strict", 0)) > CAP
     ok_cpu, ok_ker = _usable("", cpu, n, out), _usable("kernel:", ker, n, out)
     # ---- verified checker + independent evaluation of the per-pair clauses, on the real outputs ---------
     if ok_cpu:
-        _checker("", R.get("check"), R.get("check_alt"), out)
+        _checker("", R.get("check"), R.get("check_alt"), out, capped=capped(R))
         out += _direct(case, cpu, "")
     if ok_ker:
-        _checker("kernel:", R.get("check_kernel"), R.get("check_kernel_alt"), out)
+        _checker("kernel:", R.get("check_kernel"), R.get("check_kernel_alt"), out, capped=capped(R))
         out += _direct(case, ker, "kernel:")
     # ---- invariances of the statement, on the real code -----------------------------------------------
-    if ok_cpu and "moved" in obs and _usable("moved:", obs["moved"], n, out):
+    if ok_cpu and "moved" in obs and _usable("moved:", obs["moved"], n, out) and not capped(R):
         mv = obs["moved"]
         if not _same_pairs(cpu, mv):
             out.append(dict(kind="spec", clause="rigid-motion-changes-pairing", detail=f"{len(cpu['pairs'])} pairs before, {len(mv['pairs'])} after; first difference "
@@ -1535,7 +2160,7 @@ def judge(case, obs, resps):
             dev = max([abs(a[k] - b[k]) / max(1.0, abs(a[k])) for k in a] or [0.0])
             if dev > TH_TOL:
                 out.append(dict(kind="spec", clause="rigid-motion-changes-thickness", detail=f"relative deviation {dev:.3g}"))
-    if ok_cpu and "rescaled" in obs and _usable("rescaled:", obs["rescaled"], n, out):
+    if ok_cpu and "rescaled" in obs and _usable("rescaled:", obs["rescaled"], n, out) and not capped(R):
         rs = obs["rescaled"]
         if not _same_pairs(cpu, rs):
             out.append(dict(kind="spec", clause="voxel-rescaling-changes-pairing", detail=f"k={case['k']}: {len(cpu['pairs'])} pairs vs {len(rs['pairs'])}"))
@@ -1544,16 +2169,17 @@ def judge(case, obs, resps):
             dev = max([abs(a[k] * case["k"] - b[k]) / max(1.0, abs(b[k])) for k in a] or [0.0])
             if dev > TH_TOL:
                 out.append(dict(kind="spec", clause="thickness-does-not-scale-with-voxel", detail=f"k={case['k']}: relative deviation {dev:.3g}"))
-    if ok_cpu and _usable("swapped:", obs["swapped"], n, out):
+    if ok_cpu and _usable("swapped:", obs["swapped"], n, out) and not capped(R):
         sw = obs["swapped"]
         if sw["pairs"] != cpu["pairs"] or sw["th"] != cpu["th"]:
             out.append(dict(kind="spec", clause="direction-does-not-swap-roles", detail=f"direction {case['dir']} on (m1,m2) differs from the other direction on (m2,m1)"))
     # ---- other voxel size at the SAME physical maximum thickness: just another input; thickness of a pair kept by both runs scales
     if "revoxel" in RS and _usable("revoxel:", obs["revoxel"], n, out):
         rv, c2 = obs["revoxel"], dict(case, voxel=case["voxel"] * case["kv"])
-        _checker("revoxel:", RS["revoxel"].get("check"), RS["revoxel"].get("check_alt"), out)
+        _checker("revoxel:", RS["revoxel"].get("check"), RS["revoxel"].get("check_alt"), out, capped=capped(RS["revoxel"]))
         out += _direct(c2, rv, "revoxel:")
-        _vs_model("revoxel", rv, RS["revoxel"]["pairs"], out)
+        if not capped(RS["revoxel"]):
+            _vs_model("revoxel", rv, RS["revoxel"]["pairs"], out)
         if ok_cpu:
             a = dict(zip(map(tuple, cpu["pairs"]), cpu["th"]))
             for p, th in zip(map(tuple, rv["pairs"]), rv["th"]):
@@ -1563,26 +2189,36 @@ def judge(case, obs, resps):
     # ---- cross-call state: second call on the same (edited in place) caller-owned arrays, third call unchanged --------------
     if "second" in RS and _usable("second-call:", obs["second"], n, out):
         sc, c2 = obs["second"], dict(case, lab=_apply_edit(case, case["lab"]))
-        _checker("second-call:", RS["second"].get("check"), RS["second"].get("check_alt"), out)
+        _checker("second-call:", RS["second"].get("check"), RS["second"].get("check_alt"), out, capped=capped(RS["second"]))
         out += _direct(c2, sc, "second-call:")
-        _vs_model("second-call", sc, RS["second"]["pairs"], out)
+        if not capped(RS["second"]):
+            _vs_model("second-call", sc, RS["second"]["pairs"], out)
         if _usable("third-call:", obs["third"], n, out):
             th3 = obs["third"]
-            if th3["pairs"] != sc["pairs"] or th3["th"] != sc["th"]:
-                out.append(dict(kind="spec", clause="repeated-call-gives-a-different-result", detail=f"same arrays, same arguments: {len(sc['pairs'])} pairs, then {len(th3['pairs'])}"))
+            if th3["pairs"] != sc["pairs"] or th3["th"] != sc["th"]:  # the model is a function of its arguments; the statement does not speak about repetition: corr
+                out.append(dict(kind="corr", clause="repeated-call-gives-a-different-result", detail=f"same arrays, same arguments: {len(sc['pairs'])} pairs, then {len(th3['pairs'])}"))
+    # ---- the top-level entry point measure_membrane_thickness, end to end (CPU branch: inside the quantifier) --------------------------
+    t = obs.get("top")
+    if isinstance(t, dict) and _usable_top("top:", t, n, out, "spec"):
+        ct, RT = dict(case, voxel=t["veff"]), RS["top"]
+        _checker("top:", RT.get("check"), RT.get("check_alt"), out, capped=capped(RT))
+        out += _direct(ct, t, "top:")
+        if not capped(RT):
+            _vs_model("top", t, RT["pairs"], out)
     # ---- the GPU path (measure_thickness_gpu + CUDA kernel, executed by numba's CUDA simulator) on the float32-rounded input ------
     g = obs.get("gpu")
     if isinstance(g, dict):
+        mark = len(out)
         if "error" in g:
             if g.get("where"):
-                out.append(dict(kind="spec", clause="gpu:raises", detail=g["error"] + " @" + g["where"]))
+                out.append(dict(kind="corr", clause="gpu:raises", detail=g["error"] + " @" + g["where"]))
             else:
                 out.append(dict(kind="corr", clause="harness-or-library-raised", detail="CUDA simulator run: " + g["error"]))
-        elif _usable("gpu:", g, n, out):
+        elif _usable("gpu:", g, n, out, kind="corr"):
             c32 = _case32(case)
             RG = RS["gpu"]
-            _checker("gpu:", RG.get("check_kernel"), RG.get("check_kernel_alt"), out)
-            out += _direct(c32, g, "gpu:", th_tol=GPU_TH_TOL)
+            _checker("gpu:", RG.get("check_kernel"), RG.get("check_kernel_alt"), out, kind="corr", capped=capped(RG))
+            out += _direct(c32, g, "gpu:", th_tol=GPU_TH_TOL, kind="corr")
             _vs_model("gpu", g, RG["pairs_strict"], out, tol=GPU_TH_TOL)
             if "cands" not in g:
                 out.append(dict(kind="corr", clause="gpu-kernel-output-not-observed", detail="process_matches_gpu2cpu was not called with the kernel's buffers"))
@@ -1590,14 +2226,23 @@ def judge(case, obs, resps):
                 _vs_cands("gpu-kernel", g["cands"], RG["cands_strict"], out, GPU_TH_TOL)
                 if g.get("cap") != CAP or g.get("counts_over_cap"):
                     out.append(dict(kind="corr", clause="gpu-kernel-cap", detail=f"cap {g.get('cap')}, rows over the cap {g.get('counts_over_cap')}"))
+            gt = g.get("top")
+            if isinstance(gt, dict) and _usable_top("gpu-top:", gt, n, out, "corr"):
+                RT = RS["gputop"]
+                _checker("gpu-top:", RT.get("check_kernel"), RT.get("check_kernel_alt"), out, kind="corr", capped=capped(RT))
+                out += _direct(dict(c32, voxel=gt["veff"]), gt, "gpu-top:", th_tol=GPU_TH_TOL, kind="corr")
+                _vs_model("gpu-top", gt, RT["pairs_strict"], out, tol=GPU_TH_TOL)
+        for f in out[mark:]:
+            f["detail"] = str(f.get("detail", "")) + GPU_NOTE
     # ---- correspondence with the Lean model ----------------------------------------------------------
-    if ok_cpu:
+    if ok_cpu and not capped(R):
         _vs_model("cpu", cpu, R["pairs"], out)
+    # the kernels' 25-slot buffer is part of the model (candsCapped, scan order = index order): compared above the cap as well
     if ok_ker:
         _vs_model("kernel", ker, R["pairs_strict"], out)
     _vs_cands("kernel", ker["cands"], R["cands_strict"], out, 1e-12)
-    if ker["counts_on_non_sources"]:
-        out.append(dict(kind="corr", clause="kernel-writes-non-source-rows", detail=str(ker["counts_on_non_sources"])))
+    if ker["counts_on_non_sources"] or ker.get("counts_over_cap"):
+        out.append(dict(kind="corr", clause="kernel-writes-non-source-rows-or-counts-beyond-the-buffer", detail=f"{ker['counts_on_non_sources']} / {ker.get('counts_over_cap')}"))
     return out
 
 
@@ -1642,6 +2287,20 @@ def stats(case, obs, resps):
         st["gpu_pairs_assigned"] = _bucket(len(g["pairs"]), [0, 1, 5, 20, 100])
         st["gpu_arguments_left_to_defaults"] = g.get("omitted") or ["none"]
     st["cpu_arguments_left_to_defaults"] = obs["cpu"].get("omitted") or ["none"]
+    st["argument_types"] = obs.get("arg_types", "?")
+    t = obs.get("top")
+    st["entry_point_end_to_end"] = ("not-requested" if not case.get("top") else "raised" if (not isinstance(t, dict) or "error" in t) else
+                                    f"run(cpu branch, use_gpu={case['top']['use_gpu']})" if "pairs" in t else "unusable-output")
+    if isinstance(t, dict) and "pairs" in t:
+        st["entry_point_arguments_left_to_defaults"] = t.get("omitted") or ["none"]
+        st["entry_point_integer_csv_columns"] = t.get("int_columns", 0)
+    gt = g.get("top") if isinstance(g, dict) else None
+    if isinstance(gt, dict):
+        st["entry_point_gpu_branch_under_simulator"] = "run" if "pairs" in gt else "raised-or-unusable"
+    if isinstance(g, dict) and "pairs" in g:
+        st["gpu_launch_blocks_of_256_threads"] = (len(case["lab"]) + 255) // 256
+    if R and "error" not in R:
+        st["quantifier"] = "outside:more-than-25-admissible-targets-for-a-source" if max(R.get("max_per_source", 0), R.get("max_per_source_strict", 0)) > CAP else "inside"
     st["cap_passed_explicitly"] = bool(case.get("pass_cap"))
     st["second_voxel_size_same_max_nm"] = str(case.get("kv"))
     st["cross_call_edit_unlabelled_points"] = _bucket(len((case.get("edit") or {}).get("unlabel", [])), [0, 1, 2, 3, 10])
@@ -1703,21 +2362,25 @@ def probes(rng):
     return out
 
 
-LEVEL_TEXT = ("Lean 4 theorems about an executable model of measure_thickness_cpu + process_matches_cpu2cpu (and of the numba/CUDA candidate test followed by "
+LEVEL_TEXT = ("Lean 4 theorems about an executable model of measure_thickness_cpu + process_matches_cpu2cpu (and of the numba/CUDA candidate test with its 25-slot buffer followed by "
               "process_matches_gpu2cpu), for every point set, labelling, voxel size, maximum thickness, cone half-angle and direction, over any linearly ordered "
-              "field: model_spec (every pair admissible; one-to-one; greedy by increasing distance), model_lex (Python tuple tie-break), check_sound (verified checker "
-              "run on every real output), no_leftover, no_closer, at_most_one, within_range_and_forward, in_cone / cone_iff (the test with multiplier tan^2 is exactly "
-              "the cone of half-angle max_angle for unit normals), measure_move (rigid motion), measure_rescale (voxel size with the maximum rescaled along), "
-              "thickness_scales + cands_of_larger_voxel (what holds at a fixed physical maximum), direction_swap, cone_counterexample "
-              "(regression witness of D17). Tied to the source by translator theorems whose expected values are literals compared by the Lean kernel: the three "
-              "admissibility sites CPU/numba/CUDA are syntactically identical after inlining and evaluate to the model's d2/proj/lat2 over every commutative ring; "
-              "the recorded distance is the square root of that d2; guard chain and store block of each site; whole canonical bodies (alpha-renamed statement lists) "
-              "of the two kernels, measure_thickness_cpu/gpu and the two assignment loops; signature defaults; multiplier tan(radians(deg))**2 and radius on both paths. "
-              "Differential run of the real CPU path, the real numba kernel and (under numba's CUDA simulator) the real GPU path against the model at Float")
-LEVEL_NOTE = ("proved: all clauses for the model and for every implementation output accepted by the verified checker, in exact arithmetic with an abstract square root and an "
+              "field: model_spec (every pair admissible; one-to-one; greedy by increasing distance), model_lex (Python tuple tie-break), check_iff = check_sound + check_complete "
+              "(the verified checker run on every real output accepts exactly the outputs that satisfy the statement), no_leftover, no_closer, at_most_one, within_range_and_forward, "
+              "in_cone / cone_iff (the test with multiplier tan^2 is exactly the cone of half-angle max_angle for unit normals), measure_move (rigid motion), measure_rescale (change of unit: "
+              "voxel size with the maximum rescaled along), cands_at_larger_voxel_iff + thickness_at_other_voxel (what holds at a fixed physical maximum), direction_swap, "
+              "capped_eq_uncapped / fewer_than_25_candidates (the 25-slot buffer changes nothing inside the quantifier), capped_pairs_sound + cap_counterexample (above the cap: per-pair clauses hold, "
+              "greedy fails), measure_order_independent (KD-tree order is irrelevant), cone_counterexample (regression witness of D17). Tied to the source by translator theorems whose "
+              "expected values are literals compared by the Lean kernel: the three admissibility sites CPU/numba/CUDA are syntactically identical after inlining and evaluate to the model's "
+              "d2/proj/lat2 over every commutative ring; the recorded distance is the square root of that d2; guard chain and store block of each site; whole canonical bodies "
+              "(alpha-renamed statement lists, annotations / docstrings / logging removed, constant-left comparisons mirrored) of the two kernels, measure_thickness_cpu/gpu, the two assignment loops, "
+              "the entry point measure_membrane_thickness and read_segmentation; the logging helpers (fall back to print without a logger); the entry point's dispatch with every argument "
+              "resolved to CSV columns / MRC header / its own parameters; signature defaults and decorators of all seven functions; multiplier tan(radians(deg))**2 (evaluated: multiplier_evaluates) and radius on both paths. "
+              "Differential run of the real CPU path, the real numba kernel, the entry point end to end and (under numba's CUDA simulator) the real GPU path against the model at Float")
+LEVEL_NOTE = ("proved: all clauses for the model and for every implementation output accepted by the verified checker (sound and complete), in exact arithmetic with an abstract square root and an "
               "abstract angle (cos, tan with cos^2(1+tan^2)=1). Validated only: floating point, libm tan/sqrt, the KD-tree ball query, numba scheduling, float32 rounding of the "
-              "thickness (tolerance 1e-6) and of the GPU path's coordinates; the GPU path is executed by the CUDA simulator only (never on a device); 'scales with the voxel size' is proved as "
-              "measure_rescale (maximum rescaled along) - at a fixed max_thickness_nm only thickness_scales / cands_of_larger_voxel hold and the real code is run at a second "
-              "voxel size as an ordinary input; the 25-candidate cap is outside the quantifier and not modelled")
-TECHNIQUE = "Lean 4 proof (greedy-fold invariant over a sorted list, ring identities for rigid motions and the cone, verified checker) + regenerated expression trees and canonical statement lists compared with hand-written literals by the kernel + differential correspondence with margins (CPU, numba, CUDA simulator)"
+              "thickness (tolerance 1e-6) and of the GPU path's coordinates; the GPU path is executed by the CUDA simulator only (never on a device) and its disagreements are reported as correspondence; "
+              "'scales with the voxel size' is proved as measure_rescale (a change of unit: maximum rescaled along) - at a fixed max_thickness_nm the candidate set shrinks with a larger voxel size "
+              "(cands_at_larger_voxel_iff) and only the thickness of a pair kept by both runs scales (thickness_at_other_voxel); the real code is run at a second "
+              "voxel size as an ordinary input; the 25-candidate cap is modelled for the kernels (scan order), not for the KD-tree order of the CPU path - outside the quantifier either way")
+TECHNIQUE = "Lean 4 proof (greedy-fold invariant over a sorted list, ring identities for rigid motions and the cone, verified checker sound+complete, capped-buffer refinement) + regenerated expression trees and canonical statement lists compared with hand-written literals by the kernel + differential correspondence with margins (CPU, numba, entry point end to end, CUDA simulator)"
 DESIGN_REF = "DESIGN.md section 4, C20; Appendix A.1"
